@@ -573,6 +573,13 @@ def zero_exponent(chk, F):
                 cls = "maybe"
             if cls == "maybe" and tested_nonzero(fn, bb, vap):
                 cls = "nonzero"
+            if cls == "maybe":
+                # the value comes out of a private helper / a choice: every place it can come from is an existing exponent or a
+                # non-zero literal
+                import prov
+                leaves = prov.sources(F, fn, t["args"][-1], consts=True)
+                if leaves and all((k_ == "const" and isinstance(v_, int) and v_ != 0) or (k_ == "value" and existing(v_)) for k_, v_ in leaves):
+                    cls = "nonzero"
             decide(fn, fn.where(bb), p.split("::")[-1] + ":exponent", cls, "stored exponent is non-zero (%s)" % ap_str(vap)[:80],
                    "an exponent that may be zero is stored into a Dimensionality: %s" % ap_str(vap)[:120])
     # S2: closures whose (key, exponent) tuples are collected into a Dimensionality
